@@ -8,8 +8,9 @@
    event still in its history with timestamp below g — which, g being a safe bound (C04), is committed.
    A run ends (without RootsimStop) only when every thread of every node has voted (thr_to_end / nodes_to_end
    countdowns). *)
-From Coq Require Import ZArith List.
+From Coq Require Import ZArith NArith List.
 From RS Require Import TW.Term.
+From RS Require TW.App TW.Worker TW.WorkerOnceApp TW.WorkerTerm TW.WorkerTermProofs.
 Local Open Scope Z_scope.
 
 Theorem C07_initial_state_invariant : forall TMAX, 0 < TMAX -> forall preds, Inv TMAX (t_init TMAX preds).
@@ -36,7 +37,38 @@ Example C07_time_zero_is_recorded :
   term s = 0 :: -1 :: nil /\ to_end s = 1 /\ votes s 5 1000 = false.
 Proof. vm_compute. repeat split; reflexivity. Qed.
 
+(* process.c level.  The termination hooks process.c calls -- termination_on_lp_rollback(lp, msg->dest_t) at a straggler or at the
+   cancellation notice of a processed message, termination_on_msg_process(lp, msg->dest_t) after a forward execution,
+   termination_on_gvt at a GVT announcement -- are computed from the executable worker model (TW/WorkerTerm.v; tied to process.c by
+   comparing lps_to_end, max_t and every termination_t after every script line).  For every program with types below the reserved
+   ones, every checkpoint interval and EVERY script: all these calls are legal operations of the termination model (a rollback undoes,
+   in the accounting, exactly the processed entries process.c removes, and all of them are at or after the time passed), so the
+   accounting invariant holds throughout, and the ghost history of the termination model ends with the timestamps of the entries
+   the LP retains (what precedes was released by fossil collection).  [tw_ovf] is raised only if a timestamp reaches TMAX. *)
+Theorem C07_worker_termination_invariant : forall (p : App.prog) (ck : nat) (TMAX : Z), 0 < TMAX -> WorkerOnceApp.types_okb p = true ->
+  forall ops : list Worker.wop, WorkerTermProofs.TI p TMAX (fold_left (WorkerTerm.twstep p ck TMAX) ops (WorkerTerm.tw_init p TMAX)).
+Proof. exact WorkerTermProofs.worker_termination_invariant. Qed.
+
+Theorem C07_worker_component_is_the_worker_model : forall (p : App.prog) (ck : nat) (TMAX : Z) (ops : list Worker.wop),
+  WorkerTerm.tw_w (fold_left (WorkerTerm.twstep p ck TMAX) ops (WorkerTerm.tw_init p TMAX)) = fold_left (Worker.wstep p ck) ops (Worker.w_init p).
+Proof. exact WorkerTermProofs.tw_worker. Qed.
+
+Theorem C07_worker_vote_sound : forall (p : App.prog) (ck : nat) (TMAX : Z), 0 < TMAX -> WorkerOnceApp.types_okb p = true ->
+  forall (ops : list Worker.wop) (g tend : Z),
+  let s := fold_left (WorkerTerm.twstep p ck TMAX) ops (WorkerTerm.tw_init p TMAX) in
+  votes (WorkerTerm.tw_t s) g tend = true ->
+  tend <= g \/
+  forall l, (l < N.to_nat (App.p_lps p))%nat ->
+    nth l (term (WorkerTerm.tw_t s)) (-1) = TMAX \/
+    exists t, 0 <= t < g /\ In (t, true) (nth l (hist (WorkerTerm.tw_t s)) nil) /\
+              (WorkerTerm.tw_ovf s = false -> exists pre, map fst (nth l (hist (WorkerTerm.tw_t s)) nil) =
+                 pre ++ map WorkerTerm.ztm (WorkerTermProofs.P (Worker.x_hist (Worker.get_lp (WorkerTerm.tw_w s) l)))).
+Proof. exact WorkerTermProofs.worker_vote_sound. Qed.
+
 Print Assumptions C07_initial_state_invariant.
 Print Assumptions C07_accounting_invariant_preserved.
 Print Assumptions C07_invariant_all_histories.
 Print Assumptions C07_vote_sound.
+Print Assumptions C07_worker_termination_invariant.
+Print Assumptions C07_worker_component_is_the_worker_model.
+Print Assumptions C07_worker_vote_sound.
